@@ -7,6 +7,12 @@ fn usage() -> ! {
 }
 
 fn main() {
+    // run everything on a thread with a large stack (the code under test recurses per brace group)
+    let h = std::thread::Builder::new().stack_size(pkgsrc_verif::engine::SHARD_STACK).spawn(real_main).expect("spawn main");
+    let _ = h.join();
+}
+
+fn real_main() {
     let args: Vec<String> = std::env::args().collect();
     if args.len() < 2 {
         usage();
